@@ -15,18 +15,32 @@ unsigned int UNIT(u_cpgm)(ukey_t *d, unsigned long n, unsigned long epsilon, uke
 #endif
 VERIF_MAIN {
   const unsigned long n = N;
+#if EPSLO == EPSHI
+  unsigned long eps = EPSLO;                    /* a literal, so that a fixed-data construction constant-propagates */
+#else
   unsigned long eps = IN(EPSLO, EPSHI);
+#endif
   /* base anywhere in the key space (incl. right below the reserved maximum and around the sign change), offsets small */
-  unsigned long long base = IN(0, ORD_MAX - SPREAD);
   unsigned long long ord[N]; ukey_t d[N];
+#ifdef FIXED_DATA
+  /* one concrete data set (stated in the job), run-time epsilon and EVERY query key symbolic */
+  static const unsigned long long fixed_ord[N] = { FIXED_DATA };
+  for (int i = 0; i < N; i++) { ord[i] = fixed_ord[i]; d[i] = FROM_ORD(ord[i]); }
+#else
+  unsigned long long base = IN(0, ORD_MAX - SPREAD);
   for (int i = 0; i < N; i++) { ord[i] = base + IN(i ? ord[i - 1] - base : 0, SPREAD); d[i] = FROM_ORD(ord[i]); }
+#endif
 #ifdef ALLOW_SENTINEL
   int reserved = ord[N - 1] == ORD_MAX;
 #else
   ASSUME(ord[N - 1] != ORD_MAX);
   int reserved = 0;
 #endif
+#ifdef FIXED_DATA
+  unsigned long long qo = IN(0, ORD_MAX - 1);
+#else
   unsigned long long qo = base + IN(0, SPREAD); ASSUME(qo != ORD_MAX);
+#endif
   ukey_t q = FROM_ORD(qo);
   unsigned long out[3] = {0, 0, 0};
   unsigned int rc = UNIT(u_cpgm)(d, n, eps, &q, out);
